@@ -160,6 +160,10 @@ func Prefer(c bool)   {}
 func MaxLen(n int)    {}
 func Unwind(n int)    {}
 func MapOrderNondet() {}
+
+// AbstractArith asks the engine to try an abstraction of multiplications and
+// divisions (uninterpreted functions) before the exact bit-vector query.
+func AbstractArith() {}
 func Note(s string)   {}
 func Symbolic() bool  { return false }
 func Tier() int {
